@@ -41,6 +41,11 @@ fn run_seq(prop: &str, tier: &str, level: &'static str, profiles: Vec<(Profile, 
     for a in assumptions {
         rep.assumptions.push(a.to_string());
     }
+    seq_into(&mut rep, profiles);
+    rep.finish()
+}
+
+fn seq_into(rep: &mut Report, profiles: Vec<(Profile, u64)>) {
     let verbose = std::env::var("VH_VERBOSE").is_ok();
     for (p, cap) in profiles {
         let name = p.name.clone();
@@ -62,12 +67,11 @@ fn run_seq(prop: &str, tier: &str, level: &'static str, profiles: Vec<(Profile, 
                 if st.capped {
                     rep.cov("exhaustive", json!(false));
                 }
-                seqx::report_stats(&mut rep, &name, &st, depth);
+                seqx::report_stats(rep, &name, &st, depth);
             }
             Err(e) => rep.machinery_errors.push(format!("profile {name}: {e}")),
         }
     }
-    rep.finish()
 }
 
 fn run_crash(
@@ -79,25 +83,37 @@ fn run_crash(
     assumptions: &[&str],
 ) -> i32 {
     let mut rep = Report::new(prop, tier, "fault_enumeration");
-    let nh = histories.len();
-    let st = crashx::run_histories(histories, bounds);
     rep.cov("rule", json!(rule));
-    rep.cov("histories", json!(nh));
-    rep.cov("crash_points", json!(st.crash_points));
-    rep.cov("candidates_generated", json!(st.candidates));
-    rep.cov("evaluations", json!(st.images_judged + st.recovery_images));
-    rep.cov("distinct_images_judged", json!(st.images_judged));
-    rep.cov("distinct_recovery_crash_images_judged", json!(st.recovery_images));
-    rep.cov("torn_write_images", json!(st.torn));
-    rep.cov("distinct_nontrivial", json!(st.images_nontrivial));
-    rep.cov("max_pending_unsynced_ops", json!(st.max_pending));
-    rep.cov("recovered_commit_point_minus_durable_bound", json!(st.matched_cp_hist));
-    rep.cov("samples", json!(st.samples));
-    rep.cov("bounds", json!(format!("{bounds:?}")));
-    rep.cov("caps_hit", json!(st.capped));
-    rep.cov("exhaustive", json!(st.capped.is_empty()));
+    rep.cov("exhaustive", json!(true));
     for a in assumptions {
         rep.assumptions.push(a.to_string());
+    }
+    crash_into(&mut rep, histories, bounds);
+    rep.finish()
+}
+
+fn crash_into(rep: &mut Report, histories: Vec<crashx::History>, bounds: crashx::Bounds) {
+    let nh = histories.len();
+    let st = crashx::run_histories(histories, bounds);
+    rep.add_count("histories", nh as u64);
+    rep.add_count("crash_points", st.crash_points);
+    rep.add_count("candidates_generated", st.candidates);
+    rep.add_count("evaluations", st.images_judged + st.recovery_images);
+    rep.add_count("distinct_images_judged", st.images_judged);
+    rep.add_count("distinct_recovery_crash_images_judged", st.recovery_images);
+    rep.add_count("torn_write_images", st.torn);
+    rep.add_count("distinct_nontrivial", st.images_nontrivial);
+    rep.cov("max_pending_unsynced_ops", json!(st.max_pending));
+    rep.cov("recovered_commit_point_minus_durable_bound", json!(st.matched_cp_hist));
+    let mut samples = rep.coverage.get("samples").cloned().unwrap_or(json!([]));
+    for s in &st.samples {
+        samples.as_array_mut().unwrap().push(json!(s));
+    }
+    rep.cov("samples", samples);
+    rep.cov("crash_bounds", json!(format!("{bounds:?}")));
+    if !st.capped.is_empty() {
+        rep.cov("caps_hit", json!(st.capped));
+        rep.cov("exhaustive", json!(false));
     }
     for (h, e) in &st.record_failures {
         rep.violation(
@@ -116,11 +132,13 @@ fn run_crash(
     if st.images_judged == 0 {
         rep.machinery_errors.push("no crash image was judged".into());
     }
-    rep.finish()
 }
 
 fn check(prop: &str, tier: &str) -> i32 {
     let quick = tier != "thorough";
+    if let Some(code) = vh::extra::dispatch(prop, tier) {
+        return code;
+    }
     match prop {
         "C04" => run_seq(
             prop,
@@ -154,6 +172,38 @@ fn check(prop: &str, tier: &str) -> i32 {
             "every sequence of cursor operations (lower/upper_bound(_mut) at every bound kind and key class, peek/next/prev, insert_before/after with a key inside the gap / equal to either neighbour / outside, remove_next/prev, buffered runs of 5 and 40 inserts in both directions, close, drop, read-only cursor walks) up to the depth bound from empty / full-leaf / 2-level (and 3-level, sparse) trees; every returned entry, every accept/UnorderedKey decision, the table after close, the committed dump and the independent decoder are compared with a gap index over a sorted vector; distinct = distinct observation vectors",
             &["reference model: position in a sorted Vec", "sequences longer than the depth bound are not explored"],
         ),
+        "C06" => run_seq(
+            prop,
+            tier,
+            "model_checking",
+            profiles::c06_profiles(quick),
+            "every sequence of whole transactions (small/multi-page/deleting bodies x one-phase, non-durable, quick-repair; aborts and drops), reader lifetimes (2 slots), ephemeral and persistent savepoint create/drop/delete/restore (+commit or abort), compact, check_integrity and reopen up to the depth bound from small and fragmented seeds; after EVERY transaction boundary the allocator's allocated set must equal the disjoint union of data tree, system tree, DATA_FREED, SYSTEM_FREED and the in-memory freed records (redb's own page walkers through a read-only hook), allocation records must name allocated pages only, the region tracker must not hide free space, every live reader must still read its snapshot; at the end readers/savepoints are released and the pending-free queues must drain to empty within 6 empty commits; distinct = distinct observation vectors",
+            &["page walkers of redb itself enumerate the trees (the independent decoder cross-checks them under C10/C11)", "sequences longer than the depth bound are not explored"],
+        ),
+        "C02" => run_seq(
+            prop,
+            tier,
+            "model_checking",
+            profiles::c02_profiles(quick),
+            "sequential part: every interleaving on one thread of writer transactions (4 bodies x 3 commit modes, aborts, savepoint restores, compaction attempts) with a pool of 2 read transactions (begin, owned range iterators advanced from either end, dropping the ReadTransaction handle while the owned iterator lives, drop) up to the depth bound; after every transaction boundary every live reader is read completely (table list, forward/backward iteration, len, point lookups) and compared byte for byte with the model snapshot taken at begin_read; evidence counts executions in which a page freed after a reader began was handed out again while it was alive",
+            &["concurrent part (real threads under a controlled scheduler) is reported under C03", "sequences longer than the depth bound are not explored"],
+        ),
+        "C05" => run_seq(
+            prop,
+            tier,
+            "model_checking",
+            profiles::c05_profiles(quick),
+            "every transaction body up to the depth bound over table writes, multimap writes, panicking retain/extract_if predicates, open/close/rename/delete of tables, ephemeral and persistent savepoint create/delete/restore and set_durability, ended by abort(), drop or commit() (TransactionPoisoned expected when poisoned), from seeds with a persistent savepoint, a live ephemeral savepoint and pending non-durable commits; after the end the dump, the savepoint listing and the allocator's allocated page SET must equal the state before begin_write, page accounting must hold and a following transaction must commit",
+            &["storage-error poisoning is enumerated under C08", "bodies longer than the depth bound are not explored"],
+        ),
+        "C10" => run_seq(
+            prop,
+            tier,
+            "model_checking",
+            profiles::c10_profiles(quick),
+            "the storage bytes after EVERY durable commit of the table, multimap, catalog, cursor and savepoint explorations are decoded by an independent reader that shares no code with redb (own XXH3 via xxhash-rust, own layouts from docs/design.md): slot checksums, page bounds, key order, routing-key bounds, equal leaf depth, every stored checksum, stored counts, no page referenced twice, table definitions, multimap inline/subtree records; decoded contents must equal the model",
+            &["decoder written from docs/design.md and the record layouts; user-defined and composite key types are outside its comparator set"],
+        ),
         "C01" => run_crash(
             prop,
             tier,
@@ -173,6 +223,96 @@ fn check(prop: &str, tier: &str) -> i32 {
                 "page sizes 512 only; histories no longer than the stated bound",
             ],
         ),
+        "C08" => {
+            let mut rep = Report::new(prop, tier, "fault_enumeration");
+            rep.cov("rule", json!("for every history (one transaction-level step of every kind, op-level bodies with rename / delete / cursor runs / retain / savepoint restore / a live reader, and pairs) x EVERY index k of the backend call stream after the setup (len/read/write/set_len/sync; with cache 0 every page read is a call) x {fails from k on, fails only at k}: the operation in progress must return an error or complete without loss (never panic, never disagree with the model), begin_write must be refused afterwards, a read transaction must serve a commit point or fail, the backend contract (bounds, close exactly once, nothing after close) must hold through the shutdown, and every crash state of the surviving storage (all subsets of the unsynced tail up to 6 ops, single drops / single keeps above) must reopen to one commit point in [last durable ack, last requested]; non-trivial = cases in which the fault fired and was reported"));
+            let st = faultx::run(profiles::c08_histories(quick), vec![vh::backend::FaultMode::Permanent, vh::backend::FaultMode::Once]);
+            rep.cov("histories", json!(st.histories));
+            rep.cov("backend_calls_enumerated", json!(st.calls_total));
+            rep.cov("evaluations", json!(st.cases));
+            rep.cov("fault_fired", json!(st.fired));
+            rep.cov("distinct_nontrivial", json!(st.reported));
+            rep.cov("fault_swallowed_operation_succeeded_without_loss", json!(st.swallowed_ok));
+            rep.cov("fault_index_never_reached", json!(st.not_reached));
+            rep.cov("surviving_storage_images_recovered", json!(st.final_images));
+            rep.cov("failing_call_kinds", json!(st.by_kind));
+            rep.cov("failing_step_kinds", json!(st.by_failing_step));
+            rep.cov("reads_ok_after_failure", json!(st.reads_ok_after_failure));
+            rep.cov("reads_err_after_failure", json!(st.reads_err_after_failure));
+            rep.cov("samples", json!(st.samples));
+            rep.cov("exhaustive", json!(true));
+            rep.assumptions.push("one failure per run (a permanent failure models a dead device, a single failure a transient error); short reads/writes are not part of the StorageBackend trait".into());
+            for (h, k, mode, msg) in &st.failures {
+                rep.violation(
+                    format!("faultx:{}", vh::report::panic_key(&msg.chars().take(110).collect::<String>())),
+                    format!("history {h}, backend call {k} fails ({mode}): {msg}"),
+                    json!({"engine": "faultx", "history": h, "k": k, "mode": mode}),
+                );
+            }
+            if st.reported == 0 {
+                rep.machinery_errors.push("no injected fault was ever reported".into());
+            }
+            rep.finish()
+        }
+        "C11" => {
+            crashx::DEEP_OPEN.store(true, std::sync::atomic::Ordering::Relaxed);
+            let mut rep = Report::new(prop, tier, "fault_enumeration");
+            rep.cov("rule", json!("histories over savepoint / quick-repair / non-durable / compaction / reopen steps x every way of stopping them (clean close; every crash point incl. right after a quick-repair commit, with the lost-write subsets of C01) x every open path (open with full repair or with the saved snapshot; check_integrity twice; one more write transaction, clean close, open again): after each open the allocator's allocated set (in-memory, read through a hook) must equal exactly the pages the INDEPENDENT decoder finds reachable from the durable roots plus the freed-table pages, check_integrity must say Ok(true) twice with unchanged contents, and the post-reopen write must leave all earlier data intact with page accounting holding; non-trivial = distinct images whose window holds more than one commit point"));
+            rep.cov("exhaustive", json!(true));
+            crash_into(
+                &mut rep,
+                profiles::c11_histories(quick),
+                crashx::Bounds {
+                    full_subsets_upto: if quick { 5 } else { 9 },
+                    page_tears_upto: 0,
+                    deviation_window: if quick { 3 } else { 8 },
+                    recovery_depth2: 0,
+                    post_checks: true,
+                    max_images_per_history: if quick { 5_000 } else { 60_000 },
+                },
+            );
+            rep.cov("deep_open_checks", json!(crashx::DEEP_OPEN_CHECKS.load(std::sync::atomic::Ordering::Relaxed)));
+            rep.assumptions.push("failed-commit-then-drop stop mode is enumerated under C08 with the same recovery oracle".into());
+            rep.finish()
+        }
+        "C07" => {
+            let mut rep = Report::new(prop, tier, "model_checking");
+            rep.cov("rule", json!("(a) every sequence of whole transactions, ephemeral/persistent savepoint create, drop, delete, restore followed by commit or abort (also with Durability::None), and reopen up to the depth bound; the model predicts every result from the public documentation (InvalidSavepoint / ImmediateDurabilityRequired rules, restored contents, invalidation of later savepoints, listings across reopen) and page accounting + drain must hold; (b) crash enumeration (engine of C01) over savepoint histories: persistent savepoints must be listed and restore to their captured tables after every crash state"));
+            rep.cov("exhaustive", json!(true));
+            seq_into(&mut rep, profiles::c07_profiles(quick));
+            crash_into(
+                &mut rep,
+                profiles::c07_histories(quick),
+                crashx::Bounds {
+                    full_subsets_upto: if quick { 6 } else { 10 },
+                    page_tears_upto: 0,
+                    deviation_window: if quick { 4 } else { 12 },
+                    recovery_depth2: if quick { 0 } else { 1 },
+                    post_checks: true,
+                    max_images_per_history: if quick { 10_000 } else { 100_000 },
+                },
+            );
+            rep.finish()
+        }
+        "C13" => {
+            let mut rep = Report::new(prop, tier, "model_checking");
+            rep.cov("rule", json!("(a) every sequence up to the depth bound of fragmenting transactions (big/small inserts, deletes, growth, shrink, non-durable commits), reader/savepoint lifetimes and compact() from multi-region fragmented seeds: compact() must refuse exactly when a reader / ephemeral / persistent savepoint exists, otherwise leave the dump unchanged, not grow the file, stay within a backend-call budget, and repeated calls must reach `false`; (b) crash enumeration (engine of C01) at every storage operation inside compaction"));
+            rep.cov("exhaustive", json!(true));
+            seq_into(&mut rep, profiles::c13_profiles(quick));
+            crash_into(
+                &mut rep,
+                profiles::c13_histories(quick),
+                crashx::Bounds {
+                    full_subsets_upto: if quick { 6 } else { 10 },
+                    page_tears_upto: 0,
+                    deviation_window: if quick { 3 } else { 8 },
+                    recovery_depth2: 0,
+                    post_checks: true,
+                    max_images_per_history: if quick { 10_000 } else { 100_000 },
+                },
+            );
+            rep.finish()
+        }
         _ => {
             eprintln!("unknown property {prop}");
             2
